@@ -23,12 +23,14 @@ pub enum Leaf {
     Return,
     Break,
     Continue,
+    /// call a function that itself returns through a try/finally
+    CallRtt,
 }
 
-pub const LEAVES: [Leaf; 17] = [
+pub const LEAVES: [Leaf; 18] = [
     Leaf::Fall, Leaf::ThrowStr, Leaf::ThrowNum, Leaf::ThrowError, Leaf::ThrowUser, Leaf::TypeErr, Leaf::IndexErr,
     Leaf::NameErr, Leaf::AttrErr, Leaf::ValueErr, Leaf::RuntimeErr, Leaf::Deep(1), Leaf::Deep(2), Leaf::Deep(3),
-    Leaf::Return, Leaf::Break, Leaf::Continue,
+    Leaf::Return, Leaf::Break, Leaf::Continue, Leaf::CallRtt,
 ];
 
 #[derive(Clone, Copy, Debug, PartialEq)]
@@ -42,6 +44,10 @@ pub enum Cons {
     TcfBody,
     TcfCatch,
     TcfFinally,
+    /// try { return } finally { focus }: the focus runs while a return is pending
+    TrfFinally,
+    /// try { return } catch e { } finally { focus }
+    TrcfFinally,
     While1,
     While2,
     For,
@@ -50,9 +56,9 @@ pub enum Cons {
     CallClosure,
 }
 
-pub const CONS: [Cons; 15] = [
+pub const CONS: [Cons; 17] = [
     Cons::Block, Cons::TcBody, Cons::TcCatch, Cons::TfBody, Cons::TfFinally, Cons::TfFinallyAfterThrow, Cons::TcfBody,
-    Cons::TcfCatch, Cons::TcfFinally, Cons::While1, Cons::While2, Cons::For, Cons::CallFn, Cons::CallMethod, Cons::CallClosure,
+    Cons::TcfCatch, Cons::TcfFinally, Cons::TrfFinally, Cons::TrcfFinally, Cons::While1, Cons::While2, Cons::For, Cons::CallFn, Cons::CallMethod, Cons::CallClosure,
 ];
 
 fn p(text: &str) -> Stmt {
@@ -90,6 +96,7 @@ pub fn leaf_stmts(l: Leaf) -> Vec<Stmt> {
         Leaf::Return => vec![st(StmtKind::Return(Some(s("returned"))))],
         Leaf::Break => vec![st(StmtKind::Break)],
         Leaf::Continue => vec![st(StmtKind::Continue)],
+        Leaf::CallRtt => vec![print_stmt(call(var("rtt"), vec![]))],
     }
 }
 
@@ -99,6 +106,7 @@ pub fn prelude() -> Vec<Stmt> {
         fn_stmt(func("thr1", &[], vec![p("in thr1"), st(StmtKind::Throw(s("deep")))])),
         fn_stmt(func("thr2", &[], vec![var_stmt("l2", s("l2")), expr_stmt(call(var("thr1"), vec![])), print_stmt(var("l2"))])),
         fn_stmt(func("thr3", &[], vec![st(StmtKind::Try(vec![expr_stmt(call(var("thr2"), vec![]))], None, Some(vec![p("thr3 finally")])))])),
+        fn_stmt(func("rtt", &[], vec![st(StmtKind::Try(vec![st(StmtKind::Return(Some(s("rtt value"))))], None, Some(vec![p("rtt finally")])))])),
     ]
 }
 
@@ -141,6 +149,14 @@ fn wrap(c: Cons, n: usize, f: u8, inner: Vec<Stmt>) -> Vec<Stmt> {
         Cons::TcfFinally => {
             let fo = focus("F");
             out.push(st(StmtKind::Try(vec![p(&format!("T{}", l)), st(StmtKind::Throw(s("tcf")))], Some(("e".into(), catch_body(&l))), Some(fo))))
+        }
+        Cons::TrfFinally => {
+            let fo = focus("F");
+            out.push(st(StmtKind::Try(vec![p(&format!("T{}", l)), st(StmtKind::Return(Some(s(&format!("returned from try {}", l)))))], None, Some(fo))))
+        }
+        Cons::TrcfFinally => {
+            let fo = focus("F");
+            out.push(st(StmtKind::Try(vec![p(&format!("T{}", l)), st(StmtKind::Return(Some(s(&format!("returned from try {}", l)))))], Some(("e".into(), catch_body(&l))), Some(fo))))
         }
         Cons::While1 | Cons::While2 => {
             let w = format!("w{}", n);
